@@ -32,7 +32,7 @@ func init() {
 			if tier == "quick" {
 				return 8
 			}
-			return 40
+			return 120
 		},
 		Batch:            1,
 		Workers:          4,
